@@ -30,13 +30,15 @@ ASSUMPTIONS = ["static obstacles and dynamic obstacles with a trajectory predict
                "use_center_only=True is a documented alternative mode and not subjected to the shape-inverse check",
                "boundary band as in C06; circle obstacles are attributed to the recorded half-radius finding when the "
                "answer matches a disc of half the radius",
-               "file route: initial time step 0, dynamic obstacles with trajectory (XML) / trajectory or none (protobuf)"]
+               "file route: initial time step 0, dynamic obstacles with trajectory (XML) / trajectory or none (protobuf), prediction "
+               "shape equal to the obstacle shape (the readers evaluate the initial step of the prediction table with the "
+               "prediction shape, which only coincides with the initial occupancy for equal shapes)"]
 
 KNOWN_CIRCLE = c06.KNOWN_CIRCLE
 
 
 @st.composite
-def obstacle(draw, oid, net, t0=None, allow_none=True):
+def obstacle(draw, oid, net, t0=None, allow_none=True, pred_shape=True):
     role = draw(st.sampled_from(["static", "dynamic", "dynamic"]))
     shape = draw(st.one_of(gg.rectangle(centered=True, free_orientation=False), gg.circle(centered=True),
                            gg.polygon(centered=True)))
@@ -56,6 +58,10 @@ def obstacle(draw, oid, net, t0=None, allow_none=True):
                 "position": c06.point_from_spec(net, sp), "steering_angle": 0.0, "velocity": 1.0,
                 "orientation": draw(angle())}})
         ob["pred"] = {"k": "traj", "traj": {"t0": t0 + 1, "states": states}}
+        if pred_shape and draw(st.integers(0, 2)) == 0:
+            # a prediction may carry its own shape (e.g. inflated by a safety margin)
+            ob["pred"]["shape"] = draw(st.one_of(gg.rectangle(centered=True, free_orientation=False),
+                                                 gg.circle(centered=True), gg.polygon(centered=True)))
     return ob
 
 
@@ -65,7 +71,7 @@ def truth_for(ob, rings, scale, halved=False):
     states = [ob["init"]]
     if ob.get("pred"):
         states += ob["pred"]["traj"]["states"]
-    for s in states:
+    for k, s in enumerate(states):
         p, th = s["a"]["position"], s["a"]["orientation"]
         cm, cy = set(), set()
         for lid, ring in rings.items():
@@ -74,7 +80,8 @@ def truth_for(ob, rings, scale, halved=False):
                 cy.add(lid)
             elif inside:
                 cm.add(lid)
-        g = gg.place(ob["shape"], p, th)
+        shape = ob["shape"] if k == 0 or not ob["pred"].get("shape") else ob["pred"]["shape"]
+        g = gg.place(shape, p, th)
         if halved:
             g = c06.halve_circles(g)
         sm, sy = c06.lookup_truth(g, rings)
@@ -113,7 +120,8 @@ def check_assignment(sc, obstacles, rings, ctx, tag, only_ids=None, registry=Tru
         rec = recorded(o)
         assigned = only_ids is None or ob["id"] in only_ids
         tr = truth_for(ob, rings, scale)
-        trh = truth_for(ob, rings, scale, halved=True) if ob["shape"]["k"] == "circle" else None
+        has_circle = ob["shape"]["k"] == "circle" or ((ob.get("pred") or {}).get("shape") or {}).get("k") == "circle"
+        trh = truth_for(ob, rings, scale, halved=True) if has_circle else None
         for t, (cm, cy, sm, sy) in tr.items():
             c, sh = rec.get(t, (None, None))
             if not assigned:
@@ -217,14 +225,14 @@ def s_file(draw, tier=None):
     fmt = draw(st.sampled_from(["xml", "pb"]))
     obs = []
     for i in range(draw(st.integers(1, 4))):
-        ob = draw(obstacle(500 + i, net, t0=0, allow_none=(fmt == "pb")))
+        ob = draw(obstacle(500 + i, net, t0=0, allow_none=(fmt == "pb"), pred_shape=False))
         # exactly representable at the writer precision
         for s in [ob["init"]] + (ob["pred"]["traj"]["states"] if ob.get("pred") else []):
             s["a"]["position"] = [round(s["a"]["position"][0], 4), round(s["a"]["position"][1], 4)]
             s["a"]["orientation"] = max(-6.2831, min(6.2831, round(s["a"]["orientation"], 4)))
-        sh = ob["shape"]
-        if sh["k"] == "poly":
-            sh["v"] = [[round(p[0], 4), round(p[1], 4)] for p in sh["v"]]
+        for sh in [ob["shape"]] + ([ob["pred"]["shape"]] if ob.get("pred") and ob["pred"].get("shape") else []):
+            if sh["k"] == "poly":
+                sh["v"] = [[round(p[0], 4), round(p[1], 4)] for p in sh["v"]]
         obs.append(ob)
     return {"net": net, "obs": obs, "fmt": fmt}
 
